@@ -474,6 +474,12 @@ func (x *Exec) cutLoop(st *State, ls *LoopSpec, id, label string, nodes []ast.No
 	assigned := map[types.Object]bool{}
 	eff := newEffects()
 	x.vc.pruneTerminal = true
+	x.vc.skipBlocks = nil
+	for _, n := range nodes {
+		if b, ok := n.(*ast.BlockStmt); ok {
+			x.vc.skipBlocks = terminalBlocks(b, x.info)
+		}
+	}
 	for _, n := range nodes {
 		x.collectAssigned(n, assigned)
 		x.vc.effectsOfNode(eff, x.pkg, n, nil, map[*types.Func]bool{})
@@ -539,7 +545,7 @@ func (x *Exec) cutLoop(st *State, ls *LoopSpec, id, label string, nodes []ast.No
 	}
 	for _, o := range objs {
 		v := h.vars[o]
-		if v.Fn == nil {
+		if v.Fn == nil && !x.rawVars[o] {
 			x.vc.assumeFacts(h, v.T, v.Ty)
 		}
 	}
@@ -668,7 +674,7 @@ func (x *Exec) unrolledFor(st *State, s *ast.ForStmt, label, id string) Flow {
 func (x *Exec) collectAssigned(n ast.Node, out map[types.Object]bool) {
 	ast.Inspect(n, func(n ast.Node) bool {
 		if x.vc.pruneTerminal {
-			if b, ok := n.(*ast.BlockStmt); ok && endsInReturn(b, x.info) {
+			if b, ok := n.(*ast.BlockStmt); ok && (endsInReturn(b, x.info) || x.vc.skipBlocks[b]) {
 				return false
 			}
 		}
